@@ -63,6 +63,21 @@ theorem C04_fresh_disjoint (st st' : St) (op : Op) (k : Nat) (hinv : Inv st) (hc
     have := hfresh id hid
     omega
 
+/-- nothing is remembered between calls: a creating operation (copy / with_times / + / * / ÷ /
+constructors) leaves every object that existed before with the same times, the same stored cells and
+the same `values` - so re-gridding or adding the same object again later gives the same answer as it
+would have given before -/
+theorem C04_creating_op_preserves_old_objects (st st' : St) (op : Op) (k i : Nat) (o : Sig.Sig) (hinv : Inv st)
+    (hc : op.creating = true) (h : step st op = (st', .obj k)) (ho : st.objs i = some o) :
+    st'.objs i = some o ∧ (∀ id ∈ o.reach, st'.heap.cell id = st.heap.cell id) ∧
+    valuesOf st'.heap o = valuesOf st.heap o := by
+  have hf := C04_fresh st st' op k hinv hc h
+  have hne : i ≠ k := by
+    have := hinv.bound i o ho; rw [hf.isNew]; omega
+  have hcells : ∀ id ∈ o.reach, st'.heap.cell id = st.heap.cell id :=
+    fun id hid => hf.cells id (hinv.lt i o ho id hid)
+  exact ⟨by rw [hf.others i hne]; exact ho, hcells, valuesOf_congr hcells⟩
+
 /-- a refused operation allocates nothing and changes nothing -/
 theorem C04_refusal_changes_nothing (st st' : St) (op : Op) (r : Reply) (hinv : Inv st)
     (hc : op.creating = true) (h : step st op = (st', r)) (he : r.isErr = true) : st' = st := by
@@ -368,6 +383,22 @@ example : (step (run St.init C04_demo) (.add (.obj 0) (.obj 5))).2 = .errTimes :
 example : (step (run St.init [.ext [0, 1], .mkEmpty 0 .voltage, .mkEmpty 0 .field]) (.add (.obj 0) (.obj 1))).2
     = .errTypes := by decide +kernel
 example : Inv (run St.init C04_demo) := run_inv Inv.init _
+-- the hypotheses of the interp0 theorems are satisfiable: a strictly increasing grid, a shared sample,
+-- a point between two samples, points outside
+example : interp0 [0, 1, 3] [5, 7, 1] 1 = 7 :=
+  C04_interp0_at_samples [0, 1, 3] [5, 7, 1] 1 1 7 (by decide +kernel) rfl rfl rfl
+example : interp0 [0, 1, 3] [5, 7, 1] 2 = 7 + (1 - 7) / (3 - 1) * (2 - 1) :=
+  C04_interp0_between [0, 1, 3] [5, 7, 1] 1 1 3 7 1 2 (by decide +kernel) rfl rfl rfl rfl rfl
+    (by decide +kernel) (by decide +kernel)
+example : interp0 [0, 1, 3] [5, 7, 1] 4 = 0 ∧ interp0 [0, 1, 3] [5, 7, 1] (-1) = 0 := by decide +kernel
+-- padding and truncation on concrete arrays
+example : fit 4 [1, 2] = [1, 2, 0, 0] ∧ fit 1 [1, 2] = [1] := by decide +kernel
+-- the value-type refusal and the neutral cases
+example : coerce .voltage .field = none ∧ coerce .undefined .power = some .power := by decide
+-- re-gridding the same object twice gives the same answer (nothing is remembered between calls)
+example : ((run St.init (C04_demo ++ [.withTimes 0 18])).objs 7).map
+      (valuesOf (run St.init (C04_demo ++ [.withTimes 0 18])).heap) =
+    ((run St.init C04_demo).objs 5).map (valuesOf (run St.init C04_demo).heap) := by decide +kernel
 -- a filtered function-backed signal (2t+1, gain 1/2) added to a sampled one
 example : ((run St.init (C04_demo ++ [.filter 2 0, .add (.obj 0) (.obj 2)])).objs 7).map
     (valuesOf (run St.init (C04_demo ++ [.filter 2 0, .add (.obj 0) (.obj 2)])).heap) =
